@@ -24,6 +24,7 @@ import (
 	"golang.org/x/telemetry/internal/telemetry"
 	"golang.org/x/telemetry/internal/upload"
 	"golang.org/x/telemetry/internal/verifsim/hlib"
+	"golang.org/x/telemetry/internal/verifsim/mgen"
 	"golang.org/x/telemetry/internal/verifsim/ref/refcal"
 	"golang.org/x/telemetry/internal/verifsim/ref/refreport"
 	"golang.org/x/telemetry/internal/verifsim/simrt"
@@ -111,11 +112,11 @@ func upExec(c *hlib.RunCtx, t *simrt.Tape) (*hlib.Violation, int) {
 	m.loc = filepath.Join(m.tele, "local")
 	m.upl = filepath.Join(m.tele, "upload")
 	telemetry.Default = telemetry.NewDir(m.tele)
-	m.xs = []float64{dyadic(1 << 18), dyadic(1 << 19), dyadic(3 << 18)}
+	m.xs = []float64{mgen.Dyadic(1 << 18), mgen.Dyadic(1 << 19), mgen.Dyadic(3 << 18)}
 	saveReader := rand.Reader
 	rand.Reader = xReader{m}
 	defer func() { rand.Reader = saveReader }()
-	m.cfgs = append(m.cfgs, m.genConfig("v0.1.0"))
+	m.cfgs = append(m.cfgs, mgen.GenConfig(m.t, "v0.1.0"))
 	cfgFails := t.Bool(1, 8)
 	configstore.VerifDownload = func(version string, env []string) (*telemetry.UploadConfig, string, error) {
 		simrt.Yield("config:download")
@@ -124,10 +125,10 @@ func upExec(c *hlib.RunCtx, t *simrt.Tape) (*hlib.Violation, int) {
 		}
 		cur := m.cfgs[0]
 		m.cfgByTask[simrt.Cur()] = cur
-		js, _ := json.Marshal(cur.real)
+		js, _ := json.Marshal(cur.Real)
 		var cp telemetry.UploadConfig
 		json.Unmarshal(js, &cp)
-		return &cp, cur.version, nil
+		return &cp, cur.Version, nil
 	}
 	defer func() { configstore.VerifDownload = nil }()
 
@@ -140,7 +141,7 @@ func upExec(c *hlib.RunCtx, t *simrt.Tape) (*hlib.Violation, int) {
 		m.setModeDirect([]string{"on", "on", "local"}[t.Draw(3)], start.Add(-40*24*time.Hour), t.Bool(1, 3))
 		n := 1 + t.Draw(5)
 		for i := 0; i < n; i++ {
-			m.writeCounterFile(start.Add(-time.Duration(2+t.Draw(25))*24*time.Hour), 1+t.Draw(7), t.Biased(4, 3, 5))
+			mgen.WriteCounterFile(m.t, m.s, m.loc, start.Add(-time.Duration(2+t.Draw(25))*24*time.Hour), 1+t.Draw(7), t.Biased(4, 3, 5))
 		}
 		// damaged files at rest
 		if t.Bool(1, 2) {
